@@ -113,6 +113,10 @@ class Render:
             self.emit("}", ind)
         elif k == "call":
             self.emit("func.call @ext() : () -> ()", ind)
+        elif k == "lcall":
+            self.emit('"llvm.call"() <{callee = @ext, fastmathFlags = #llvm.fastmath<none>, CConv = #llvm.cconv<ccc>, '
+                      'op_bundle_sizes = array<i32>, operandSegmentSizes = array<i32: 0, 0>, '
+                      'TailCallKind = #llvm.tailcallkind<none>}> : () -> ()', ind)
         elif k == "callnone":
             self.emit("func.call @ext() {accfg.effects = #accfg.effects<none>} : () -> ()", ind)
         elif k == "use":
@@ -152,7 +156,7 @@ def atoms(accs, in_loop, pal_limit):
             if uses_iv and not in_loop:
                 continue
             out.append(("cfg", acc, p))
-    out += [("call",), ("callnone",)]
+    out += [("call",), ("callnone",), ("lcall",)]
     return out
 
 
@@ -248,7 +252,7 @@ def program_set(tier, seed, want_calls=True):
     # exhaustive: one accelerator, palette 4, sizes <= 3 (quick) / <= 4 (thorough), depth <= 2
     for size in range(1, 4 if quick else 5):
         for p in gen_blocks(size, 2, ["acc1"], False, 3 if size >= 3 else 4, ["args"]):
-            if not want_calls and any(s[0] in ("call", "callnone") for s in p):
+            if not want_calls and any(s[0] in ("call", "callnone", "lcall") for s in p):
                 continue
             if size >= 3 and count_cfg(p) < 2:
                 continue
@@ -311,7 +315,15 @@ class Machine:
 
 
 def machine_handlers(M: Machine):
-    from snaxc.inference.helpers import has_accfg_effects
+    def may_reconfigure(op):
+        """machine semantics (independent of the compiler's own predicate): a func.call / llvm.call may reconfigure
+        every accelerator unless it carries accfg.effects = none"""
+        from snaxc.dialects import accfg
+
+        a = op.attributes.get("accfg.effects")
+        if isinstance(a, accfg.EffectsAttr):
+            return a.data != accfg.EffectsEnum.NONE
+        return True
 
     def h_setup(I, op):
         acc = op.accelerator.data
@@ -341,7 +353,7 @@ def machine_handlers(M: Machine):
 
     def h_call(I, op):
         name = op.callee.root_reference.data
-        if has_accfg_effects(op):  # the real predicate decides whether the call may reconfigure
+        if may_reconfigure(op):
             M.clobber()
             I.emit("call", name, True)
         else:
@@ -372,6 +384,7 @@ def machine_handlers(M: Machine):
 
     return {
         "accfg.setup": h_setup, "accfg.launch": h_launch, "accfg.await": h_await, "func.call": h_call,
+        "llvm.call": h_call,
         "accfg.accelerator": h_accel, "@for_iter": h_for_iter, "@for_exit": h_for_exit, "@if_exit": h_if_exit,
     }
 
